@@ -55,6 +55,9 @@ SPECS["C10"] = {
         {"name": "H2-dequeue-order", "pkg": "engine", "files": ["engine/c10.go"], "fn": "VerifC10DequeueOrder",
          "what": "arbitrary Push/Pop sequences on the task queue, 2 cascades, symbolic priorities, rand.Intn symbolic", "reach": ["pop"],
          "quick": {"params": {"S": 5}, "unwind": 40, "wall_s": 300}, "thorough": {"params": {"S": 7}, "unwind": 40, "wall_s": 1500}},
+        {"name": "H5-failing-rule-children", "pkg": "engine", "files": ["engine/c10.go"], "fn": "VerifC10FailingRuleChildren",
+         "what": "running 1-worker processor: 3 rules with symbolic priorities each adding a child event, symbolic failing rule, both fail-on-first-error settings", "reach": ["cascade-done"],
+         "quick": {"unwind": 60, "wall_s": 600}, "thorough": {"unwind": 60, "wall_s": 1200}},
         {"name": "H1-rule-order", "pkg": "engine", "files": ["engine/c10.go"], "fn": "VerifC10RuleOrder",
          "what": "R rules with symbolic priorities and failing flags, both settings of fail-on-first-error", "reach": ["processed"],
          "quick": {"params": {"R": 3}, "unwind": 40}, "thorough": {"params": {"R": 4}, "unwind": 60}},
@@ -209,6 +212,9 @@ SPECS["C01"] = {
          "what": "cascade scope over 4 paths (defined/allow symbolic), per-rule scope requirements over 4 paths and suppression matrix symbolic", "reach": ["built", "processed"],
          "quick": {"params": {"R": 2}, "unwind": 60, "wall_s": 600},
          "thorough": {"params": {"R": 3}, "unwind": 60, "wall_s": 2400}},
+        {"name": "H5-sinks", "pkg": "interpreter", "files": ["interpreter/common.go", "interpreter/c01.go"], "fn": "VerifC01Sinks",
+         "what": "two sinks declared in ECAL (6 kind patterns, 4 state pattern kinds, mutual suppression symbolic) on a running processor, event of 6 kinds x 4 state kinds", "reach": ["declared", "processed"],
+         "quick": {"params": {"NP": 4, "NK": 3}, "unwind": 60, "wall_s": 900}, "thorough": {"unwind": 60, "wall_s": 2400}},
         {"name": "H2-mask-63", "pkg": "engine", "files": ["engine/c01.go"], "fn": "VerifC01Mask",
          "what": "63 state rules on one kind, event value symbolic float64", "reach": ["matched"],
          "quick": {"params": {"N": 63}, "unwind": 80, "wall_s": 600}, "thorough": {"params": {"N": 63}, "unwind": 80, "wall_s": 600}},
